@@ -358,6 +358,15 @@ func (c *compiler) compileType(y *Type, parent Leafable, isUnion bool) error {
 			return fmt.Errorf("%s - %s path does not lead to a leaf", SchemaPath(parent), y.ident)
 		} else {
 			y.delegate = target.Type()
+			// a leafref may lead to a leafref, but not back to itself
+			for t, steps := y.delegate, 0; t != nil; t, steps = t.delegate, steps+1 {
+				if t == y || steps > 1000 {
+					return fmt.Errorf("%s - %s path leads back to the leaf itself", SchemaPath(parent), y.ident)
+				}
+				if t.delegate == t {
+					break
+				}
+			}
 		}
 	} else {
 		y.delegate = y
